@@ -417,3 +417,50 @@ Definition cl_agrees (x : clone_case) : bool :=
 Definition cl_spec_ok (x : clone_case) : bool :=
   cl_made x && cl_wsdl_shared x && cl_msgs_fresh x
   && list_eqb N.eqb (cl_seen x) [cl_a x; cl_a x; cl_v x; cl_w x; cl_v x].
+
+(* --- (4) "a clone can always be made": attribute lookup on a link Endpoint
+   (suds/properties.py).  copy.deepcopy of the option graph re-creates every
+   Endpoint without calling __init__ and then asks it for __deepcopy__ /
+   __reduce_ex__ / __setstate__; Endpoint.__getattr__ is what answers when
+   normal lookup fails.  [guard] is the test added by a66f8e5. --- *)
+Inductive aname := NLink | NTarget | NDunder | NPlain.
+Inductive lkres := Found | AttrErr | Recursion.
+
+Definition guarded (n : aname) : bool :=
+  match n with NPlain => false | _ => true end.
+
+(* Endpoint.__getattr__(name), called only when normal lookup failed.
+   fuel = interpreter recursion limit *)
+Fixpoint endpoint_getattr (guard has_target target_has : bool) (fuel : nat) (n : aname) : lkres :=
+  match fuel with
+  | O => Recursion
+  | S f =>
+      if guard && guarded n then AttrErr
+      else if has_target then (if target_has then Found else AttrErr)   (* getattr(self.target, name) *)
+      else (* self.target is not there yet: normal lookup fails, __getattr__('target') *)
+           match endpoint_getattr guard has_target target_has f NTarget with
+           | Recursion => Recursion
+           | _ => AttrErr
+           end
+  end.
+
+Record lookup_case := mklk {
+  lk_name : aname;
+  lk_has_target : bool;      (* the endpoint is fully built *)
+  lk_target_has : bool;      (* the target Properties object has the attribute *)
+  lk_obs : lkres
+}.
+
+Definition lookup_eqb (a b : lkres) : bool :=
+  match a, b with Found, Found | AttrErr, AttrErr | Recursion, Recursion => true | _, _ => false end.
+
+Definition lk_agrees (x : lookup_case) : bool :=
+  lookup_eqb (endpoint_getattr true (lk_has_target x) (lk_target_has x) 900 (lk_name x)) (lk_obs x).
+
+(* from the text: no lookup on a half-built endpoint recurses (else no clone
+   can be made); on a complete endpoint ordinary names are the target's *)
+Definition lk_spec_ok (x : lookup_case) : bool :=
+  negb (lookup_eqb (lk_obs x) Recursion)
+  && (if lk_has_target x && negb (guarded (lk_name x))
+      then lookup_eqb (lk_obs x) (if lk_target_has x then Found else AttrErr)
+      else true).
